@@ -688,7 +688,21 @@ def _rule_regex(F: Facts, lex_m: Module, name: str, node: ast.FunctionDef, closu
             if not isinstance(doc, str):
                 raise AnalysisError('lexer: the regex of @TOKEN rule %s is not a string' % name)
         else:
-            raise AnalysisError('lexer: decorated token rule %s is not modelled' % name)
+            # decorators of the package that hand the rule back as it is (markers, registries, a decorator that attaches the
+            # regex as docstring): PLY sees the same function; the regex is the docstring it has once the module is imported
+            key_ = _ply_sort_key(F, lex_m, name, node)          # raises for decorators that are not understood
+            if key_[1] != lex_m.rel or key_[0] != _first_line(node):
+                raise AnalysisError('lexer: decorated token rule %s is wrapped by its decorator (the wrapper has no regex docstring of its own)' % name)
+            from .symexec import exec_module_body
+            exec_module_body(F, lex_m)
+            for st, msg in F.__dict__.get('_module_env_problems', {}).get(lex_m.name, []):
+                if isinstance(st, ast.FunctionDef) and st.name == name:
+                    raise AnalysisError('lexer: %s:%d: the decorators of %s could not be evaluated statically: %s' % (lex_m.rel, st.lineno, name, msg[:200]))
+            dv = F.__dict__.get('_doc_overrides', {}).get(lex_m.name + '.' + name)
+            if dv is not None:
+                if not (isinstance(dv, tuple) and len(dv) == 2 and dv[0] == 'const' and isinstance(dv[1], str)):
+                    raise AnalysisError('lexer: the docstring attached to %s at import time is not a constant' % name)
+                doc = dv[1]
     if not doc:
         raise AnalysisError('lexer: rule %s has no regex docstring' % name)
     return doc
